@@ -268,8 +268,21 @@ def ddmin_list(items, test, budget):
     return items
 
 
-def minimise(engine, case, clause, known, budget_runs=300):
-    budget = [budget_runs]
+class _Budget(list):
+    """[runs_left] that also runs out when a wall-clock deadline passes."""
+
+    def __init__(self, runs, wall):
+        super().__init__([runs])
+        self.t_end = time.monotonic() + wall
+
+    def __getitem__(self, i):
+        if time.monotonic() > self.t_end:
+            return 0
+        return list.__getitem__(self, i)
+
+
+def minimise(engine, case, clause, known, budget_runs=300, budget_wall=40.0):
+    budget = _Budget(budget_runs, budget_wall)
     best = case
     # 1. ddmin over ops
     if isinstance(best.get("ops"), list) and len(best["ops"]) > 1:
@@ -318,7 +331,7 @@ def minimise(engine, case, clause, known, budget_runs=300):
             tape = None  # replay by tape diverged; keep seed-based replay
     else:
         tape = {} if getattr(engine, "uses_kernel", True) else None
-    return best, tape, res, budget_runs - budget[0]
+    return best, tape, res, budget_runs - list.__getitem__(budget, 0)
 
 
 # ---------------------------------------------------------------------- top level
@@ -359,7 +372,7 @@ def do_replay(engine, path):
     if trace_to and res.get("full_trace"):
         with open(trace_to, "w") as f:
             f.write("\n".join(res["full_trace"]))
-    print(json.dumps({k: res.get(k) for k in ("violations", "digest", "harness_error", "summary", "trace_tail", "fds", "thread_excs")}, indent=1, default=repr))
+    print(json.dumps({k: res.get(k) for k in ("violations", "digest", "harness_error", "summary", "trace_tail", "fds", "thread_excs", "tty_err_tail")}, indent=1, default=repr))
     clauses = _clauses(res)
     if doc["clause"] in clauses:
         same = res.get("digest") == doc["expect"].get("digest")
@@ -449,7 +462,9 @@ def main_check(engine, tier, verif_seed, jobs, n_runs=None, wall_cap=None):
         if case is None:
             continue
         try:
-            best, tape, res, used = minimise(engine, case, clause, known, engine.budgets[tier].get("min_runs", 300))
+            best, tape, res, used = minimise(
+                engine, case, clause, known, engine.budgets[tier].get("min_runs", 300), engine.budgets[tier].get("min_wall", 40.0)
+            )
             min_runs += used
         except Exception:
             traceback.print_exc()
